@@ -217,6 +217,14 @@ async fn workload(mut sim: Sim, o: Opts) -> Result<Value, String> {
         quic(&mut config).max_idle_timeout_ms = Some(30_000);
         quic(&mut config).keep_alive_interval_ms = Some(5_000);
         quic(&mut config).max_concurrent_bidi_streams = stream_limit;
+        if o.mode == "mix" || o.mode == "replace" {
+            // flow control and stream credit at work: small windows and few streams slow calls
+            // down, they never change what is delivered
+            quic(&mut config).stream_receive_window = [None, Some(8_192u64), Some(65_536)][sim.rng.gen_range(0..3)];
+            quic(&mut config).receive_window = [None, Some(65_536u64)][sim.rng.gen_range(0..2)];
+            quic(&mut config).send_window = [None, Some(65_536u64)][sim.rng.gen_range(0..2)];
+            quic(&mut config).max_concurrent_bidi_streams = [None, Some(3u64), Some(100)][sim.rng.gen_range(0..3)];
+        }
         if (o.mode == "mix" || o.mode == "replace") && !o.faults {
             // generous defaults that never fire (fault-free runs; under heavy loss a 4 MB transfer can
             // take longer than any default): the layers that apply them must leave the request alone
